@@ -73,6 +73,16 @@ Spec == Init /\ [][Next]_vars
 FairSpec == Spec /\ WF_vars(PollAlive) /\ WF_vars(Get) /\ WF_vars(EndDrain)
                  /\ \A c \in Children : WF_vars(Put(c)) /\ WF_vars(CrashPut(c)) /\ WF_vars(Feed(c)) /\ WF_vars(Exit(c))
 
+\* refinement onto ResultQueueInd (sequences abstracted to sets; "got" = everything put that is neither buffered nor in
+\* the pipe), whose inductive invariant Apalache discharges for all K, R <= 4, all None sets and crashers at once
+SeqSet(q) == {q[i] : i \in 1..Len(q)}
+BufferedBar == UNION {SeqSet(buffer[c]) : c \in Children}
+PutBar == {x \in Children \X (0..R) : (x[2] >= 1 /\ x[2] <= produced[x[1]]) \/ (x[2] = 0 /\ x[1] \in crashed)}
+RQI == INSTANCE ResultQueueInd WITH produced <- [c \in 1..4 |-> IF c \in Children THEN produced[c] ELSE 0],
+                                    buffered <- BufferedBar, pipe <- SeqSet(pipe),
+                                    got <- PutBar \ (BufferedBar \cup SeqSet(pipe))
+RefinesInd == RQI!Spec
+
 AllProduced == {<<c, j>> : c \in Children, j \in 1..R} \ Nones
 Expected == {<<c, j>> \in AllProduced : j <= Goal(c)}
 SeqRange(s) == {s[i] : i \in 1..Len(s)}
